@@ -234,7 +234,7 @@ inductive CRule where
   | firstFacePoint | firstFaceCenter | avgFaceCenters | observed
   deriving DecidableEq, Repr
 
-/-- the expression of the source the rule transcribes (comprehension variable `x`) -/
+/-- the expression of the source the rule transcribes (bound names `v0, v1, …`) -/
 def CRule.src : CRule → String
   | .position => "self.position"
   | .avgRows => "np.average(self.points, axis=0)"
@@ -245,14 +245,14 @@ def CRule.src : CRule → String
   | .circleOrigin => "self.origin.position"
   | .facePoints => "np.average(self.point_array, axis=0)"
   | .opPoints => "np.average(self.point_array, axis=0)"
-  | .avgOpCenters => "np.average([x.center for x in self.operations], axis=0)"
+  | .avgOpCenters => "np.average([v0.center for v0 in self.operations], axis=0)"
   | .partPoint attr _ => "self." ++ attr ++ ".position"
-  | .stackOps => "np.average([x.center for x in self.operations], axis=0)"
-  | .avgShapeCenters => "np.average([x.center for x in self.shapes], axis=0)"
+  | .stackOps => "np.average([v0.center for v0 in self.operations], axis=0)"
+  | .avgShapeCenters => "np.average([v0.center for v0 in self.shapes], axis=0)"
   | .gridCorners => "(self.faces[0].points[0].position + self.faces[-1].points[2].position) / 2"
   | .firstFacePoint => "self.faces[0].points[0].position"
   | .firstFaceCenter => "self.faces[0].center"
-  | .avgFaceCenters => "np.average([x.center for x in self.faces], axis=0)"
+  | .avgFaceCenters => "np.average([v0.center for v0 in self.faces], axis=0)"
   | .observed => "?"
 
 /-- which rule an entity of a kind runs -/
@@ -465,10 +465,11 @@ inductive Dflt where
   | noOrigin | center | zero
   deriving DecidableEq, Repr
 
-/-- as the source spells it (`ElementBase.rotate/scale/mirror`: `self.center`; `transform`: the local `center`) -/
-def Dflt.src (viaMethod : Bool) : Dflt → String
+/-- as the source spells it (`ElementBase.rotate/scale/mirror`: `self.center`; `transform`: the local it assigns
+    `self.center` to before the parts move — the translator resolves single-assignment locals) -/
+def Dflt.src (_viaMethod : Bool) : Dflt → String
   | .noOrigin => "-"
-  | .center => if viaMethod then "self.center" else "center"
+  | .center => "self.center"
   | .zero => "[0, 0, 0]"
 
 def Tr.dflt : Tr → Dflt
